@@ -133,7 +133,7 @@ def run(tier, seed):
         m2 = dict(m); m2[-1] = b"\x00" + m[-1]; m2[-2] = b"\x00\x00" + m[-2]
         check_decode(cbor2.dumps(m2), c.pk, "rsa leading zero bytes")
     # RSA exponents other than 65537 (byte strings that are not palindromes), incl. a real ceremony
-    for e in (65539, 3, 0x0103, 17):
+    for e in (65539, 3, 0x0103, 17, 0x0100010001, 0x010000000000000001):
         c = authsim.rsa_cred_exponent(e)
         check_decode(c.cose_bytes, c.pk, f"rsa exponent {e}")
         s = authcat.Scn("RS256")
